@@ -307,6 +307,11 @@ func skipGen(r *rand.Rand, n, length int) []Case {
 		ml := mls[r.Intn(len(mls))]
 		ops := []string{fmt.Sprintf("new %d %s", ml, ps[r.Intn(len(ps))])}
 		nk := 2 + r.Intn(10)
+		caseKeys = nil
+		if c%2 == 1 {
+			// every other case: a universe drawn from all special keys (NUL bytes, '@', prefixes of one another …), not the front
+			caseKeys = subsetKeys(r, nk)
+		}
 		tags := map[string]bool{}
 		live := map[string]bool{}
 		for i := 0; i < length; i++ {
@@ -349,6 +354,7 @@ func skipGen(r *rand.Rand, n, length int) []Case {
 		for t := range tags {
 			tl = append(tl, t)
 		}
+		caseKeys = nil
 		cases = append(cases, Case{Ops: ops, Tags: tl})
 	}
 	return cases
